@@ -280,7 +280,7 @@ class Check:
                 json.dump(ev, f, indent=1)
         self.work.cleanup()
         for t in self.known_hits:
-            print("KNOWN-FINDING: property=%s %s" % (self.pid, t))
+            print("KNOWN-FINDING: property=%s %s" % (self.pid, re.sub(r"^known:\s*property=\S+\s*", "", t)))
         for n in sorted(self.foreign_notes):
             print("NOTE: also saw a failed condition of other properties: %s" % n)
         if self.infra:
